@@ -61,7 +61,7 @@ Proof. exact pol_parses_any_case. Qed.
 (* the generated setup -> configuration conversion IS the unit table *)
 (* (export_rounds_idler_waist_position: whether the code rounds the idler waist position, read off the source; the unit table's
    only parameter) *)
-Theorem C16_as_config_is_unit_table : forall U s, as_config R_ops U s = as_config_spec export_rounds_idler_waist_position U s.
+Theorem C16_as_config_is_unit_table : forall U s, as_config R_ops U s = as_config_spec export_rounds_idler_waist_position export_rounds_gaussian_fwhm U s.
 Proof. exact as_config_matches_spec. Qed.
 
 (* every exported number is within 0.5e-4 of the physical value in the field's unit; idler, crystal angle and waist
@@ -85,7 +85,7 @@ Theorem C16_roundtrip : forall U s,
               exists z, bc_waist_pos_um ic = Param z /\ close4 z (s_zi s / micro)) /\
   match s_pp s with
   | PolOff => c_pp c = PCOff
-  | PolOn period _ a => exists p, c_pp c = PCConfig (Param p) (apod_spec a) /\ close4 p (period / micro)
+  | PolOn period _ a => exists p, c_pp c = PCConfig (Param p) (apod_spec export_rounds_gaussian_fwhm a) /\ close4 p (period / micro)
   end /\
   close4 (c_deff c) (s_deff s / (pico / u_volt U)).
 Proof. exact roundtrip_within. Qed.
@@ -94,8 +94,9 @@ Proof. exact roundtrip_within. Qed.
    export_rounds_idler_waist_position = true), so EVERY exported number is the physical value rounded to 4 decimals -- an
    integer multiple of 1e-4 (at most 4 fractional digits: such numbers of moderate size have at most 15 significant digits and
    survive serde_json's default float parser; that last step is validated per run, serde/ryu are external).  Passed through
-   unrounded: pump.spectrum_threshold, apodization parameters. *)
-Theorem C16_as_config_is_unit_table_now : forall U s, as_config R_ops U s = as_config_spec true U s.
+   unrounded: pump.spectrum_threshold and the apodization parameters -- the Gaussian FWHM in um is re-derived as fwhm/1e-6 and can
+   carry 17 digits (flag export_rounds_gaussian_fwhm, false on the current tree: reported by the check as a JSON-lossy finding). *)
+Theorem C16_as_config_is_unit_table_now : forall U s, as_config R_ops U s = as_config_spec true export_rounds_gaussian_fwhm U s.
 Proof. exact as_config_now_unit_table. Qed.
 
 Theorem C16_exported_numbers_four_decimals : forall U s,
@@ -116,7 +117,7 @@ Proof. exact (fun x => conj (round4_idempotent x) (round4_err x)). Qed.
 Theorem C16_stable : forall U K minpos rj s, reimportable U s ->
   exists s2, try_as_spdc_steps R_ops U K minpos rj (as_config R_ops U s) = Ok (s2, []) /\
              as_config R_ops U s2 = as_config R_ops U s.
-Proof. exact (fun U K minpos rj s => stable U K minpos rj export_rounds_idler_waist_position s eq_refl). Qed.
+Proof. exact (fun U K minpos rj s => stable U K minpos rj export_rounds_gaussian_fwhm export_rounds_idler_waist_position s eq_refl eq_refl). Qed.
 
 (* ================================================================================================ auto = explicit *)
 Theorem C16_auto_is_explicit : forall num (o : NumOps num) U K minpos rj (c : spdc_cfg num) s nf,
